@@ -123,6 +123,10 @@ theorem shr16 (n : Nat) : n >>> 16 = n / 65536 := by rw [Nat.shiftRight_eq_div_p
 theorem and_mask24 (x : Nat) : x &&& 0xFFFFFF = x % 16777216 := by
   rw [show (0xFFFFFF : Nat) = 2 ^ 24 - 1 from rfl, Nat.and_two_pow_sub_one_eq_mod]
 
+theorem mod32_24 (x : Nat) : x % 4294967296 % 16777216 = x % 16777216 := by omega
+theorem lin_mod32 (b : U8) (a : U16) : lin b a % 4294967296 = lin b a := by
+  have := lin_lt b a; omega
+
 theorem lin_succ_mod (b : U8) (a : U16) : ((lin b a + 1) % 4294967296) % 16777216 = (lin b a + 1) % 16777216 := by
   have := lin_lt b a; omega
 
